@@ -192,6 +192,7 @@ class Repo:
         self.root = root or repo_root()
         self.modules: Dict[str, Module] = {}
         self.parsed_files: List[str] = []
+        self.normalisation_notes: List[str] = []
         overrides = overrides or {}
         pkgdir = os.path.join(self.root, PKG)
         if not os.path.isdir(pkgdir):
@@ -216,6 +217,13 @@ class Repo:
                 name = inner[:-3].replace(os.sep, ".")
                 if name.endswith(".__init__"):
                     name = name[: -len(".__init__")]
+                # behaviour-preserving normalisation (normalize.py): new private helpers inlined, `x = a if c else b` as if/else
+                from .normalize import normalise
+                try:
+                    self.normalisation_notes.extend(normalise(tree, name))
+                except Exception as e:        # the normaliser must never make the analysis worse than not having it
+                    self.normalisation_notes.append(f"{name}: normalisation skipped ({type(e).__name__}: {e})")
+                    tree = ast.parse(src, filename=rel)
                 mod = Module(name=name, relpath=rel, source=src, tree=tree)
                 _index_functions(mod)
                 self.modules[name] = mod
